@@ -184,13 +184,41 @@ class FakeContext:
             raise Hang(f"parallel_add polled its workers {self.polls} times without finishing")
 
 
-class RecordingSharedMemory(_RealSharedMemory):
-    created = []
+class RecordingSharedMemory:
+    """Records every shared-memory segment created in this process and can make the next attach fail, by wrapping the
+    POSIX call below multiprocessing.shared_memory (so it does not matter how, or from which module, the library
+    reaches SharedMemory)."""
 
-    def __init__(self, name=None, create=False, size=0, **kw):
-        super().__init__(name=name, create=create, size=size, **kw)
-        if create:
-            RecordingSharedMemory.created.append(self.name)
+    created = []
+    fail_next_attach = 0
+    _real = None
+
+    class _Proxy:
+        def __init__(self, real):
+            self._real = real
+
+        def shm_open(self, name, flags, *a, **kw):
+            if not flags & os.O_CREAT and RecordingSharedMemory.fail_next_attach > 0:
+                RecordingSharedMemory.fail_next_attach -= 1
+                raise OSError(24, "Too many open files")
+            fd = self._real.shm_open(name, flags, *a, **kw)
+            if flags & os.O_CREAT:
+                RecordingSharedMemory.created.append(name)
+            return fd
+
+        def __getattr__(self, k):
+            return getattr(self._real, k)
+
+    @classmethod
+    def install(cls):
+        import multiprocessing.shared_memory as shm_mod
+
+        if cls._real is None:
+            cls._real = shm_mod._posixshmem
+            shm_mod._posixshmem = cls._Proxy(cls._real)
+
+
+RecordingSharedMemory.install()
 
 
 class Patched:
@@ -201,12 +229,11 @@ class Patched:
         self.cores = cores
 
     def __enter__(self):
-        self.saved = (helpers.get_context, helpers.sleep, cm.SharedMemory, hh.SharedMemory, hl.SharedMemory)
+        self.saved = (helpers.get_context, helpers.sleep)
         ctx = self.ctx
         helpers.get_context = lambda method=None: ctx
         helpers.sleep = ctx.sleep
         RecordingSharedMemory.created = []
-        cm.SharedMemory = hh.SharedMemory = hl.SharedMemory = RecordingSharedMemory
         # the machine's core count is part of the environment: pretend 1, 2 or 64 physical cores
         self.saved_cpu = helpers.psutil.cpu_count
         cores = self.cores
@@ -215,7 +242,7 @@ class Patched:
         return ctx
 
     def __exit__(self, *exc):
-        helpers.get_context, helpers.sleep, cm.SharedMemory, hh.SharedMemory, hl.SharedMemory = self.saved
+        helpers.get_context, helpers.sleep = self.saved
         helpers.psutil.cpu_count = self.saved_cpu
         _QUEUES.clear()
         return False
